@@ -17,6 +17,9 @@ func init() { workloads["smoke"] = smoke }
 // smoke is a scratch probe (not part of any check): does a value written by an XVM contract stay what it was
 // when later calls of the same contract reuse the instance's memory?
 func smoke(args []string) int {
+	if len(args) > 0 && args[0] == "c07h" {
+		return smokeC07h()
+	}
 	dir, _ := ioutil.TempDir("", "smoke.")
 	defer os.RemoveAll(dir)
 	w, err := harness.OpenWorld(dir, harness.Options{})
@@ -100,5 +103,41 @@ func smoke(args []string) int {
 			fmt.Printf("stored %q = %q\n", kk[20:], string(d[kk]))
 		}
 	}
+	return 0
+}
+
+func smokeC07h() int {
+	dir, _ := ioutil.TempDir("", "smoke.")
+	defer os.RemoveAll(dir)
+	w, err := harness.OpenWorld(dir, harness.Options{})
+	if err != nil {
+		fmt.Println(err)
+		return 1
+	}
+	defer w.R.Close()
+	if err := w.BuildStandard(); err != nil {
+		fmt.Println(err)
+		return 1
+	}
+	tight := harness.DetKey("tight-sender")
+	w.Exec(w.Transfer(harness.User(0), tight.Addr, "900000000"))
+	has := func() bool {
+		_, ok := w.R.DumpState()["account-"+harness.AddrStore.String()]
+		return ok
+	}
+	for name, a := range map[string]*types.Address{"interchain": harness.AddrInterchain, "store": harness.AddrStore, "rule": harness.AddrRule, "role": harness.AddrRole, "appchain": harness.AddrAppchain, "txmgr": harness.AddrTxMgr, "gov": harness.AddrGov, "service": harness.AddrService} {
+		_, ok := w.R.DumpState()["account-"+a.String()]
+		fmt.Println("account record of", name, ok)
+	}
+	fmt.Println("store account record before:", has())
+	res, err := w.Exec(w.BVM(harness.User(1), harness.AddrStore, "Set", pb.String("k"), pb.String("v")), w.Transfer(tight, harness.AddrStore, "899999000"))
+	if err != nil {
+		fmt.Println(err)
+		return 1
+	}
+	for i, rc := range res.Receipts {
+		fmt.Printf("tx%d %v %.60s\n", i, rc.Status, string(rc.Ret))
+	}
+	fmt.Println("store account record after:", has())
 	return 0
 }
